@@ -27,55 +27,108 @@ def owns(code, prefixes):
     return any(code.startswith(p) for p in prefixes)
 
 
-def drive(ctx, rng, cfg, nops, always_consistent=False, opmix=None, keep_refused=False):
+class Session:
+    """A PyCdlib object plus the accepted history that produced it; `reopen` ops write the image and open it again."""
+
+    def __init__(self, cfg, tmpdir, always_consistent=False):
+        self.cfg, self.tmpdir, self.ac = cfg, tmpdir, always_consistent
+        self.iso = isoapi.new_iso(cfg, always_consistent)
+        self.ops, self.results, self.tokens = [], [], []
+        self.gen = 0
+        self.paths = []
+
+    def apply(self, op):
+        if op['op'] == 'reopen':
+            return self.reopen()
+        return isoapi.apply_op(self.iso, op)
+
+    def reopen(self):
+        import pycdlib
+        path = os.path.join(self.tmpdir, 'gen%d_%d.iso' % (self.gen, random.randrange(10 ** 12)))
+        try:
+            self.iso.write(path)
+        except Exception as e:  # noqa
+            return 'write-fails:' + isoapi.exc_class(e)
+        try:
+            self.iso.close()
+        except Exception:
+            pass
+        iso2 = pycdlib.PyCdlib(always_consistent=self.ac)
+        try:
+            iso2.open(path)
+        except Exception as e:  # noqa
+            self.iso = isoapi.new_iso(self.cfg, self.ac)
+            return 'open-fails:' + isoapi.exc_class(e) + ':' + str(e)[:60]
+        self.iso = iso2
+        self.gen += 1
+        self.paths.append(path)
+        return 'ok'
+
+    def record(self, op, res):
+        self.ops.append(op)
+        self.results.append(res)
+        if res == 'ok':
+            t = isoapi.spec_token(op)
+            if t is not None:
+                self.tokens.append(t)
+
+    def close(self):
+        try:
+            self.iso.close()
+        except Exception:
+            pass
+        for p in self.paths:
+            try:
+                os.unlink(p)
+            except OSError:
+                pass
+
+
+def replay_session(cfg, ops, tmpdir, always_consistent=False):
+    s = Session(cfg, tmpdir, always_consistent)
+    for op in ops:
+        s.record(op, s.apply(op))
+    return s
+
+
+def drive(ctx, rng, cfg, nops, always_consistent=False, opmix=None, keep_refused=False, tmpdir=None, session=None, shadow=None):
     """Generate and apply a history op by op. Returns (iso, ops, results, tokens).
     Unless keep_refused, a refused op is dropped and the object is rebuilt from the accepted ops, so that the
     history consists of accepted edits only (what a refusal leaves behind is C14's subject, not C01's)."""
-    iso = isoapi.new_iso(cfg, always_consistent)
-    sh = gen.Shadow(cfg, rng)
-    ops, results, tokens = [], [], []
+    s = session or Session(cfg, tmpdir or tempfile.gettempdir(), always_consistent)
+    sh = shadow or gen.Shadow(cfg, rng)
+    if opmix:
+        sh.opmix = opmix
     attempts = 0
-    while len(ops) < nops and attempts < nops * 4:
+    start = len(s.ops)
+    while len(s.ops) - start < nops and attempts < nops * 4:
         attempts += 1
         g = sh.gen_op()
         if g is None:
             continue
         op, effect = g
-        res = isoapi.apply_op(iso, op)
+        res = s.apply(op)
         ctx.dist['op:%s:%s' % (op['op'], res)] += 1
         if res == 'ok':
             sh.commit(effect)
-            ops.append(op)
-            results.append(res)
-            t = isoapi.spec_token(op)
-            if t is not None:
-                tokens.append(t)
+            s.record(op, res)
         elif keep_refused:
-            ops.append(op)
-            results.append(res)
+            s.record(op, res)
         else:
             if res != 'invalidInput':
                 ctx.violation('edit-raises/%s/%s' % (op['op'], res), 'edit %s raised %s' % (short(op), res),
-                              {'kind': 'history', 'cfg': cfg, 'ops': ops + [op]})
-            try:
-                iso.close()
-            except Exception:
-                pass
-            iso, _r, _t = replay_ops(cfg, ops, always_consistent)
-    return iso, ops, results, tokens
+                              {'kind': 'history', 'cfg': cfg, 'ops': s.ops + [op]})
+            ops = list(s.ops)
+            s.close()
+            s2 = replay_session(cfg, ops, s.tmpdir, always_consistent)
+            s.iso, s.ops, s.results, s.tokens, s.gen, s.paths = s2.iso, s2.ops, s2.results, s2.tokens, s2.gen, s2.paths
+    s.shadow = sh
+    return s
 
 
 def replay_ops(cfg, ops, always_consistent=False):
-    iso = isoapi.new_iso(cfg, always_consistent)
-    results, tokens = [], []
-    for op in ops:
-        res = isoapi.apply_op(iso, op)
-        results.append(res)
-        if res == 'ok':
-            t = isoapi.spec_token(op)
-            if t is not None:
-                tokens.append(t)
-    return iso, results, tokens
+    s = replay_session(cfg, ops, tempfile.gettempdir(), always_consistent)
+    return s.iso, s.results, s.tokens
 
 
 def master(iso, tmpdir, rng):
@@ -94,22 +147,41 @@ class Case:
     pass
 
 
-def build_case(ctx, rng, cfg, nops, tmpdir, ops=None, always_consistent=False):
+def build_case(ctx, rng, cfg, nops, tmpdir, ops=None, always_consistent=False, reopen_every=None, opmix=None):
+    """Drive (or replay) a history and master it.  reopen_every=k inserts a write+open generation every k accepted ops."""
     c = Case()
     c.cfg = cfg
     with isoapi.frozen_time():
         if ops is None:
-            iso, c.ops, c.results, c.tokens = drive(ctx, rng, cfg, nops, always_consistent)
+            s = None
+            sh = None
+            left = nops
+            while True:
+                step = left if not reopen_every else min(left, reopen_every)
+                s = drive(ctx, rng, cfg, step, always_consistent, tmpdir=tmpdir, session=s, shadow=sh, opmix=opmix)
+                sh = s.shadow
+                left -= step
+                if left <= 0:
+                    break
+                res = s.apply({'op': 'reopen'})
+                s.record({'op': 'reopen'}, res)
+                if res != 'ok':
+                    break
         else:
-            c.ops = ops
-            iso, c.results, c.tokens = replay_ops(cfg, ops, always_consistent)
-        c.iso = iso
+            s = replay_session(cfg, ops, tmpdir, always_consistent)
+        c.session = s
+        c.ops, c.results, c.tokens = s.ops, s.results, s.tokens
+        c.iso = s.iso
         c.write_error = None
         c.path = None
-        try:
-            c.path = master(iso, tmpdir, rng)
-        except Exception as e:  # noqa
-            c.write_error = '%s: %s' % (isoapi.exc_class(e), str(e)[:120])
+        bad = [r for r in c.results if r.startswith('write-fails') or r.startswith('open-fails')]
+        if bad:
+            c.write_error = 'generation: ' + bad[0]
+        else:
+            try:
+                c.path = master(c.iso, tmpdir, rng)
+            except Exception as e:  # noqa
+                c.write_error = '%s: %s' % (isoapi.exc_class(e), str(e)[:120])
     return c
 
 
